@@ -953,10 +953,21 @@ class Spec(object):
             if is_sym(it) or not hasattr(it, "__iter__"):
                 symbolic[0] = True
                 opaque_iter[0] = True
-                self.assign(gen.target, self.fresh("elem"), scope, g)
-                for c in gen.ifs:
-                    self.ev(c, scope, g)
-                rec(i + 1, conds)
+                # a comprehension over symbolic data is a loop: summarise one iteration (its effects are kept as a loop effect)
+                tag = "comp%d_%d" % (getattr(e, "lineno", 0), i)
+                mark = len(self.effects)
+                self.guards.append(Op("in-loop", tag))
+                try:
+                    self.assign(gen.target, self.elem_of(it, tag), scope, g)
+                    for c in gen.ifs:
+                        self.ev(c, scope, g)
+                    rec(i + 1, conds)
+                finally:
+                    self.guards.pop()
+                eff = self.effects[mark:]
+                del self.effects[mark:]
+                cond = Op("iter-more", it if is_sym(it) else show(it)[:40])
+                self.effect("loop", tag, ast.unparse(gen.iter)[:80], cond, LoopSummary(tag, {}, Fall(scope), eff, dict(scope), cond), node=e)
                 return
             for x in list(it):
                 self.assign(gen.target, x, scope, g)
@@ -981,7 +992,8 @@ class Spec(object):
         if symbolic[0]:
             if cond_entries is not None and not isinstance(e, ast.DictComp):
                 return Op("complist", *cond_entries)
-            return Op("comp:" + type(e).__name__, ast.unparse(e)[:80], *[x for x in out[:4]])
+            kind = {ast.ListComp: "list", ast.SetComp: "set", ast.DictComp: "dict", ast.GeneratorExp: "gen"}[type(e)]
+            return Sym("comp#%d:%s" % (len(self.effects), kind), kind if kind != "gen" else "gen", {"comp": ast.unparse(e)[:80], "elt": out[0] if out else None})
         if isinstance(e, ast.SetComp):
             return set(out)
         if isinstance(e, ast.DictComp):
